@@ -173,6 +173,10 @@ def run_c10(tier):
         findings.append({"kind": "finding", "prop": prop, "what": "recorded group case on %d points disagrees with the brute-force closure" % e["deg"],
                          "site": "", "detail": {"event_no": evno, "gens": e["gens"], "more": e["more"], "count1": e["count1"],
                                                 "count2": e["count2"], "grew": e["grew"], "naming": e["naming"]}})
+    # design level: the stabiliser-chain model GroupOp.tla refines the brute-force reference along every
+    # sequence of add_set calls on 4 points (a disagreement is a tool error: two of our models)
+    glog, gst = run_tlc("GroupOp", "MC_GroupOp.cfg", {}, "C10_groupop", workers=8, timeout=900)
+    require_tlc_ok(gst, glog, "GroupOp")
     st4, trans4, perms4 = tl[4]
     s = trans4[len(trans4) // 2]
     e0 = json.loads(lines[0]) if lines else {}
@@ -187,7 +191,10 @@ def run_c10(tier):
            "rule": "every transition (subgroup, generator set of <=3 permutations) of S2,S3,S4 [30 subgroups of S4 x 2325 sets] replayed "
                    "on the real Group (two representations of the from-group, 5 slot namings) and through unions of a multi-slot leaf in "
                    "the e-graph; %d random cases on 5/6 points recorded and validated by TLC; non-trivial = transitions that grow the group" % cases,
-           "exhaustive": True, "tlc": {("S%d" % d): v[0] for d, v in tl.items()}, "tlc_trace": tst, "replay": summaries}
+           "exhaustive": True, "tlc": {("S%d" % d): v[0] for d, v in tl.items()}, "tlc_trace": tst, "replay": summaries,
+           "operational_model": {"what": "GroupOp.tla (stabiliser chain: build_ot, schreiers_lemma, contains, all_perms, count, generators, add_set) "
+                                         "refines Group.tla on S4 along all add_set sequences: same elements, order, membership, orbits, growth flag; the "
+                                         "generators read back from the chain generate the whole group", "tlc": gst}}
     finish(prop, tier, t0, findings, cov, assumptions=[
         "hook H1 (verif_group.rs) is a logic-free wrapper around the private Group<Perm>",
         "Group.tla computes subgroups by brute-force closure; IsGroup/Lagrange/OrbitsPartition checked by TLC on every state"])
